@@ -60,6 +60,8 @@ type monState struct {
 	lastSeen     map[string]*JobSnap // last API report of every job ever seen
 	saveOps      map[int]*saveOpInfo // client -> explicit save in flight (C12 r6c)
 	listOps      map[int]map[string]bool // client -> jobs reported when its HTTP list request arrived
+	listStart    map[int]int             // client -> step at which its HTTP list request arrived
+	pipeHist     []string                // step -> canonical pipeline list reported after that step
 	replaced     map[string]bool         // jobs that were replaced while they waited
 	snapAtSave   map[int]*Snap       // handed-save index -> API snapshot at the instant the snapshot was built
 	lastChangeAt time.Duration       // fake time of the last step that changed the reported state
@@ -146,6 +148,10 @@ func (m *monState) onStep(si *StepInfo, pre, post *Snap, evs []Event) {
 	if len(post.Dup) > 0 {
 		run.violate("C15", "r3d", "job %v reported twice by IterateJobs", post.Dup)
 	}
+	for len(m.pipeHist) < si.N {
+		m.pipeHist = append(m.pipeHist, canonPipes(pre.Pipelines)) // steps recorded without a snapshot (lock busy) repeat the last state
+	}
+	m.pipeHist = append(m.pipeHist, canonPipes(post.Pipelines)) // index = step number
 	for name, j := range post.Jobs {
 		if old := m.lastSeen[name]; old == nil || run.trackChanges && old.digest() != j.digest() {
 			m.lastChangeAt = post.At
@@ -467,6 +473,16 @@ func (m *monState) onListOpStart(client int) {
 		names[n] = true
 	}
 	m.listOps[client] = names
+	if m.listStart == nil {
+		m.listStart = map[int]int{}
+	}
+	m.listStart[client] = m.run.step
+}
+
+func canonPipes(ps []PipeInfo) string {
+	c := append([]PipeInfo(nil), ps...)
+	sort.Slice(c, func(i, j int) bool { return c[i].Pipeline < c[j].Pipeline })
+	return fmt.Sprint(c)
 }
 
 func brief(j *JobSnap) string {
@@ -920,6 +936,23 @@ func (m *monState) checkList(si *StepInfo, res *OpResult, pre, post *Snap) {
 			}
 		}
 		delete(m.listOps, res.Client)
+		// the pipelines part: what it says must have been true at some instant between arrival and answer
+		if from, ok := m.listStart[res.Client]; ok && run.cur.shutdownBegun == 0 {
+			var got []PipeInfo
+			for _, bp := range body.Pipelines {
+				got = append(got, PipeInfo{bp.Pipeline, bp.Schedulable, bp.Running})
+			}
+			g := canonPipes(got)
+			match := g == canonPipes(post.Pipelines) || g == canonPipes(pre.Pipelines)
+			for st := from; st < len(m.pipeHist) && !match; st++ {
+				match = m.pipeHist[st] == g
+			}
+			if !match && from < len(m.pipeHist) {
+				run.violate("C15", "r2h", "step %d: the pipelines part of /pipelines/jobs (%s) was true at no instant between the arrival of the request (step %d: %s) and its answer (%s)", si.N, g, from, m.pipeHist[from], canonPipes(post.Pipelines))
+			}
+			run.probe("http_list_pipelines_part_checked")
+		}
+		delete(m.listStart, res.Client)
 		for i := 1; i < len(body.Jobs); i++ {
 			if body.Jobs[i].Created.After(body.Jobs[i-1].Created) {
 				run.violate("C15", "r3o", "step %d: /pipelines/jobs is not ordered newest first at position %d", si.N, i)
